@@ -407,7 +407,12 @@ def findD (fuel : Nat) (root : Val) (sp : Pos) (ps entry : Bool) (toks : List St
             | some ni, some nv =>
               if ni.isEmpty then .error .Unsupported else
               .ok (root, { parent := cur.parent, nameIdx := some ni, value := nv, found := found ++ slash ++ ni, notFound := Option.none })
-            | Option.none, _ => .error .TypeError   -- str + None
+            | Option.none, some nv =>
+              -- `'..'` surfaced to the root (fix C04-g): the root is found, the way an empty xpath finds it
+              if cur.isFound then
+                .ok (root, { parent := cur.parent, nameIdx := Option.none, value := nv, found := cur.found, notFound := Option.none })
+              else .error .TypeError   -- str + None
+            | Option.none, Option.none => .error .TypeError   -- str + None
             | _, Option.none => .error .Unsupported
     else if isList pv then
       findD fuel root sp ps false (bracket ['*'] :: tok :: rest) par rl found
